@@ -302,6 +302,22 @@ func C20(c *core.Ctx) {
 			f.From = mstart[1]
 		}
 		if rng.Intn(4) == 0 {
+			// the window starts on a day on which a price changes (the value moves on the first day of the first
+			// period without any flow), sometimes with a window of that single day
+			var pz []int
+			for _, d := range j.Dirs {
+				if d.K == "price" && d.Z > base && d.Z < end {
+					pz = append(pz, d.Z)
+				}
+			}
+			if len(pz) > 0 {
+				f.From = pz[rng.Intn(len(pz))]
+				if rng.Intn(5) == 0 {
+					f.To = f.From
+				}
+			}
+		}
+		if rng.Intn(4) == 0 {
 			f.Last = 1 + rng.Intn(3)
 		}
 		switch rng.Intn(6) { // account / commodity filters: the portfolio is a part of the asset / liability holdings
